@@ -98,7 +98,12 @@ def install(R):
         """the result, read by the usual convention, denotes err rounded to two significant figures and x rounded to the same digit:
         with k the shown power of ten, n the shown number of decimals:  digits == D2(err / 10**k),  n == 1 - E2(err / 10**k)
         (so digits * 10**-n == round2(err / 10**k)), and the shown value is err's companion x / 10**k printed with n decimals."""
-        X, n, digs, suf = shape(eng.as_V(res))
+        try:
+            X, n, digs, suf = shape(eng.as_V(res))
+        except Unsupported:
+            # not a structured term (e.g. the opaque result at a call site): the statement stays an uninterpreted fact
+            P = z3.Function("ReadsBackP", V, Real, Real, B)
+            return mk_bool(P(eng.as_V(res), eng.num(x, fr)[1], eng.num(err, fr)[1]))
         k = SufExp(suf)
         xv, ev = eng.num(x, fr)[1], eng.num(err, fr)[1]
         es = z3.If(k == 0, ev, scale10(ev, k))
